@@ -220,7 +220,7 @@ def shard(shard, nshards, tier, seed):
     cfg = config(tier)
     for sc in scenarios(tier):
         b = cfg["bound"]
-        if tier != "quick" and (not sc[2] or len(sc[3]) > 2):
+        if tier != "quick" and (not sc[2] or len(sc[3]) > 2 or sc[0].startswith(("S6", "S7"))):
             b = 1  # no warm-up = the lazy build races (~1500 points per execution): bound 2 only on the warmed 2-thread scenarios
         # cold scenarios (the lazy build races): one more preemption is allowed before the build lock is taken
         # (bootstrap entry point / ensure_compiled / prologue of compile), i.e. a thread that has decided to build
@@ -258,7 +258,7 @@ def main(tier):
         PROP, tier, "model_checking", merged, t0,
         rule=f"two (thorough: also three, at bound 1) real threads on one shared function, serialised by a baton at every executed source line of the library's "
              f"dispatch / build / resolution code; all schedules with at most {cfg['bound']} preemption(s) (iterative context bounding; "
-             "first calls racing the lazy build: bound 1 anywhere plus one more preemption located before the build lock is taken - bootstrap entry point, ensure_compiled, prologue of compile) over scenarios S1 racing first calls (same / different arguments, through "
+             "S6 / S7 and first calls racing the lazy build: bound 1 anywhere; the latter plus one more preemption located before the build lock is taken - bootstrap entry point, ensure_compiled, prologue of compile) over scenarios S1 racing first calls (same / different arguments, through "
              "the dispatch function, Ovld.__call__, a bound method), S2 racing cache misses (same / different / position-sharing "
              "tuples), S3 racing call_next chains, S4 racing dependent dispatchers, S8 first calls that omit an optional parameter, S6 / S7 call_next on a value of another type (accepted / not accepted by the caller) racing the first direct resolution of that type; oracle: each thread's result equals its result "
              "alone (both sequential orders agree), no deadlock, and afterwards every probe equals the fault-free function; "
